@@ -140,7 +140,12 @@ def mutations(base):
             hb = k % 3 if m[:2] not in ("OB", "OU") else k % 2
             subs.append(("unknown-event", m[:hb] + chr(ord(m[hb]) | 0x80) + m[hb + 1:], p, j))
             for ws in SIZE_CHECKED.get(m, []):
-                subs.append(("payload-size", m, bytes(ws), False))
+                # the event's own payload cut (or padded) to the wrong size: what is left of it stays
+                # meaningful (task id, CPU index ...), so that nothing but the size is wrong
+                subs.append(("payload-size", m, (p + bytes(16))[:ws], False))
+            if m[1:2] == "T" and m in SIZE_CHECKED and len(p) >= 3 and not j:
+                for ws in sorted(set([len(p) - 1, max(2, len(p) - 3)]) - set(SIZE_CHECKED[m]) - {len(p)}):
+                    subs.append(("payload-size", m, p[:ws], False))
             if j:
                 subs.append(("jumbo-flag-cleared", m, p[:16] if len(p) >= 2 else b"", False))
             for (cls, nm, npl, nj) in subs:
